@@ -22,9 +22,20 @@ type Replay struct {
 	Forks   []int                  `json:"forks"`
 	Tier    int                    `json:"tier"`
 	// expectations recorded by the engine (samples)
-	Reached  []string `json:"reached,omitempty"`
-	Observed []string `json:"observed,omitempty"`
-	Outcome  string   `json:"outcome,omitempty"`
+	Reached  []string            `json:"reached,omitempty"`
+	Observed []string            `json:"observed,omitempty"`
+	Outcome  string              `json:"outcome,omitempty"`
+	Tables   map[string][]string `json:"tables,omitempty"`
+}
+
+// StringTable returns the constant keys of the map literals inside the named
+// function of the repository (read from SSA by the engine; from the replay
+// file natively).
+func StringTable(fn string) []string {
+	if st.rp != nil {
+		return st.rp.Tables[fn]
+	}
+	return nil
 }
 
 // Tier: 0 quick, 1 thorough (harnesses choose their bounds from it).
